@@ -597,6 +597,11 @@ CORPUS_FUZZ = [
     ["\tc"], [" A c"], ["A", "\t?"], ["A c", "", " ?"], ["#title x", " ?"], ["A c ; ?"], ["ABC c {d/e} f"], ["AB {c/d/e} f"], ["A }"],
     ["A {_{C"], ["A _{C"], ["A k{C"], ["A _{C} c"], ["AB {c/_{C}"], ["AB {c/_{C"], ["A {_{Q"], ["A _{C ; }"], ["A c _{+cf", "A d"], ["A {c _{C}"],
     ["A" + " " * 190 + "?"], ["A " + "c " * 120 + "?"], ["A o4 " + "c" * 10, "@300 psg 1 2", "G @300 c", "A @300 d"],
+    # numbers beyond int / long, and commands that reach back where there is nothing to reach (grace note or
+    # reverse rest first in a track, after a loop bracket, after the loop point): still a positioned InputError
+    ["A o4 c3000000000"], ["A o4 c:3000000000"], ["A o4 c99999999999999999999"], ["A o3000000000 c"], ["A v99999999999999999999 c"],
+    ["A l4 c", "A o4 d3000000000 e"], ["A ~c"], ["A o4 ~c d"], ["A o4 [c]2 ~d"], ["A o4 c L ~d"], ["A R8 c"], ["A o4 [c]2 R8"], ["A o4 c L R8"],
+    ["A o4 r ~c"], ["A o4 c *20 ~d", "*20 e"], ["A \\=1,0 o4 c \\ ^"], ["A \\ c"], ["A o4 c ^3000000000"], ["A t3000000000 c"], ["A [c]3000000000"],
 ]
 
 
